@@ -107,7 +107,8 @@ def rule_E6(repo: Repo) -> RuleResult:
 
 def rule_E7(repo: Repo) -> RuleResult:
     res = RuleResult("E7", "timed EMA: the per-group clock holds the integer timestamps exactly")
-    f = repo.func("emas", "_ema_grouped_timed")
+    from .canon import inline_cell_reads
+    f = inline_cell_reads(repo.func("emas", "_ema_grouped_timed"))
     roles = infer_roles(f)
     clock = None
     for n in walk_no_nested(f.node):
@@ -406,7 +407,7 @@ def rule_P23(repo: Repo) -> RuleResult:
         raise AnalysisError("P23: bit packing (nb_dot) not found in bools_to_categorical")
     packed = packs[0].args[0]
     decoded = [x.value for x in ast.walk(f.node) if isinstance(x, ast.Attribute) and x.attr == "columns"
-               and any(isinstance(l, ast.For) and any(y is x for y in ast.walk(l.iter)) for l in ast.walk(f.node))]
+               and any(isinstance(l, (ast.For, ast.comprehension)) and any(y is x for y in ast.walk(l.iter)) for l in ast.walk(f.node))]
     if not decoded:
         raise AnalysisError("P23: decode loop over the columns not found")
     if all(norm(d) == norm(packed) for d in decoded):
